@@ -22,6 +22,18 @@ def M(id_, file, old, new, props):
 
 
 MUTANTS = [
+    M('probed-restore-inverted', N, "'neural_bound_{}'.format(i) in group",
+      "'neural_bound_{}'.format(i) not in group", 'C09'),
+    M('probed-restore-step-two', N, "                rng=bound.rng))\n            i += 1",
+      "                rng=bound.rng))\n            i += 2", 'C09'),
+    M('reader-skips-first-member', U, "            group['bound_{}'.format(i)], rng=bound.rng)\n"
+      "            for i in range(len(bound.log_v_all))]",
+      "            group['bound_{}'.format(i)], rng=bound.rng)\n"
+      "            for i in range(1, len(bound.log_v_all))]", 'C09'),
+    M('resume-skips-second-bound', S, "                for i in range(1, len(self.shell_n)):\n"
+      "                    self.bounds.append(NautilusBound.read(",
+      "                for i in range(2, len(self.shell_n)):\n"
+      "                    self.bounds.append(NautilusBound.read(", 'C05'),
     M('reader-class-dispatch-inverted', U, "        if group.attrs['bound_class'] == 'Ellipsoid':",
       "        if group.attrs['bound_class'] != 'Ellipsoid':", 'C09 C05'),
     M('acceptance-one-plus-inverse', U, "            p = 1 - 1.0 / n_bound", "            p = 1 + 1.0 / n_bound", 'C08'),
@@ -1058,6 +1070,9 @@ BENIGN += [
          "            points = points[self.rng.random(size=len(points)) > p]",
          new="            points = points[self.rng.random(size=len(points)) < 1 / n_bound]",
          props=ALL.split()),
+    dict(id='reader-range-explicit-zero', file=U,
+         old="            for i in range(len(bound.log_v_all))]",
+         new="            for i in range(0, len(bound.log_v_all))]", props=ALL.split()),
     dict(id='with-statement', file=S, old="fstream = h5py.File(filepath_tmp, 'w')", new=None,
          fn=_with_statement, props=ALL.split()),
     dict(id='guard-clause-trim', file=U, old="            return False\n\n    def contains",
